@@ -51,7 +51,7 @@ ASSUMPTIONS = [
 ]
 NOT_DECIDED = ['"up to conditioning-scaled rounding": only the exact identity is proved',
                'numerical non-singularity of the moment system for a given floating-point ratio']
-BOUNDED = []
+BOUNDED = ['integer-quotients: LogRule._apply on int64 / int32 / float32 tables compared with float64 (18 concrete cases, executed, not proved)']
 QUANTIFIED = 'x, h > 0, step ratio (q = 1/r in (0,1)), all Taylor coefficients b_k: universally quantified reals; ' \
              'n, order: enumerated over the grid, and universally quantified integers in the ints[...] groups'
 
@@ -78,6 +78,7 @@ def groups(tier):
     out.append(('pairing', ('pairing', tier)))
     out.append(('tables', ('tables',)))
     out.append(('cache-base-case', ('cache0',)))
+    out.append(('integer-quotients', ('intq',)))
     return out
 
 
@@ -212,6 +213,20 @@ def run_cfg(method, n, orders, rulecls='LogRule', group_fmt='cfg[%s,n=%d]/order=
                     want = want + sign * P[idx, i] * fdel[k + i, 0]
                 solve.prove('A:row%d' % k, lift(der[k, 0]).t * hs[k, 0].t ** n == want.t, [hs[k, 0].t != 0])
                 solve.fact('A:steps-row%d' % k, hh[k, 0] is hs[k, 0] or lift(hh[k, 0]).t.eq(hs[k, 0].t))
+            # the same rule applied to a complex-valued table (complex-valued f, real steps): each part is combined with the SAME
+            # alignment (origin) as the real table above
+            fdc = SymArr([[C(z3.Real('gr%d' % k), z3.Real('gi%d' % k))] for k in range(K)])
+            derc, _hc = rule._apply(fdc, hs, r)
+            okc = len(derc) == len(der)
+            solve.fact('A:complex-table:rows', okc)
+            if okc:
+                for k in range(len(derc)):
+                    wr = R(0); wi = R(0)
+                    for i in range(T):
+                        wr = wr + sign * P[idx, i] * R(z3.Real('gr%d' % (k + i)))
+                        wi = wi + sign * P[idx, i] * R(z3.Real('gi%d' % (k + i)))
+                    dv = C.lift(lift(derc[k, 0]))
+                    solve.prove('A:complex-table:row%d' % k, z3.And(dv.re.t * hs[k, 0].t ** n == wr.t, dv.im.t * hs[k, 0].t ** n == wi.t), [hs[k, 0].t != 0])
             if order == orders[0]:
                 solve.twin('A:row0-with-next-table-row', lift(der[0, 0]).t * hs[0, 0].t ** n ==
                            sum((sign * P[idx, i] * fdel[1 + i, 0] for i in range(T)), R(0)).t, [hs[0, 0].t != 0])
@@ -448,7 +463,30 @@ def run_cache0():
     return dict(entries_at_import=len(fresh.FD_RULES))
 
 
+def run_intq():
+    """the rule applied to integer-typed (and float32) difference quotients gives what it gives for the same numbers as float64
+    (dtype effects are invisible in object arrays: executed on concrete data)"""
+    fd = mods()['fd']
+    bad = []
+    cnt = 0
+    for method, n, order in [('forward', 1, 2), ('forward', 1, 3), ('central', 1, 4), ('backward', 2, 2), ('central', 3, 2), ('complex', 1, 2)]:
+        rule = fd.LogRule(n=n, method=method, order=order)
+        T = len(rule.rule(2.0))
+        K = T + 3
+        q = np.array([[((7 * k * k + 3 * k) % 13) - 6] for k in range(K)])
+        h = np.array([[2.0 ** -k] for k in range(K)])
+        for name, qa in (('int64', q.astype(np.int64)), ('int32', q.astype(np.int32)), ('float32', q.astype(np.float32))):
+            cnt += 1
+            a = rule._apply(qa, h, 2.0)[0]; b = rule._apply(q.astype(float), h, 2.0)[0]
+            if np.shape(a) != np.shape(b) or not np.allclose(np.asarray(a, dtype=float), b, rtol=1e-6, atol=1e-6 * float(np.max(np.abs(b)))):
+                bad.append((method, n, order, name, np.asarray(a).ravel()[:3].tolist(), b.ravel()[:3].tolist()))
+    solve.fact('rule-applied-to-integer/float32-typed-quotients==rule-applied-to-the-same-numbers-as-float64[%d cases]' % cnt, not bad, kind='bounded', note=str(bad[:2])[:300])
+    return {}
+
+
 def run_group(args):
+    if args[0] == 'intq':
+        return run_intq()
     if args[0] == 'cache0':
         return run_cache0()
     if args[0] == 'cfg':
@@ -467,6 +505,8 @@ def replay_case(ob):
     import re
     if ob['name'].startswith('cache-base-case/'):
         return dict(kind='C06.cache0')
+    if ob['name'].startswith('integer-quotients/'):
+        return dict(kind='C06.intq')
     mm = re.search(r'cfg\[(\w+),n=(\d+)\]/order=(\d+)/', ob['name'])
     if mm:
         method, n, order = mm.group(1), int(mm.group(2)), int(mm.group(3))
